@@ -17,6 +17,7 @@ from paramiko.common import MSG_CHANNEL_DATA, MSG_CHANNEL_EXTENDED_DATA, MSG_CHA
 from paramiko.message import Message
 
 PID = "C19"
+ITEM_WALL_CAP = 120     # seconds of wall time per BFS shard (reported as a cap when hit)
 META = {
     "level": "exploration",
     "technique": "explicit-state BFS over operation histories (ChannelPair) + delay-bounded schedule exploration of live transports, credit-ledger oracle on the wire order",
@@ -57,11 +58,18 @@ def bfs_item(item, acc):
     frontier.append(list(prefix))
     n_states = 1
     last = list(prefix)
+    import time as _t
+    t_end = _t.time() + ITEM_WALL_CAP
     while frontier:
         hist = frontier.popleft()
         if len(hist) >= depth:
             acc.count("frontier_left_at_depth_cap")
             continue
+        if _t.time() > t_end:
+            acc.note("bfs wall cap %ds hit for (W,P)=%r first event %r: %d states left unexpanded"
+                     % (ITEM_WALL_CAP, (W, P), prefix, len(frontier) + 1))
+            acc.count("frontier_left_at_wall_cap", len(frontier) + 1)
+            break
         st = chanflow.build(cfg, hist)
         for ev in evs:
             if ev[0] in ("send", "send_err") and st.remaining == 0:
@@ -223,12 +231,12 @@ def sched_item(item, acc):
             acc.violation("ledger:%s:live-transports" % v[0], {"scn": scn, "why": v[1], "choices": ex.choices},
                           {"part": "sched", "scn": scn, "choices": ex.choices, "bound": bound})
 
-    res = explore.explore(body, bound, "delay", cap=3000, on_exec=on_exec, sched_kw={"horizon": S.EPOCH + 120})
+    res = explore.explore(body, bound, "delay", cap=1500, on_exec=on_exec, sched_kw={"horizon": S.EPOCH + 120})
     acc.count("sched_schedules", res.executions)
     acc.count("sched_scenarios")
     acc.count("sched_distinct_wire_shapes", len(sigs))
     if res.capped:
-        acc.note("sched cap 3000 hit for %r" % (scn,))
+        acc.note("sched cap 1500 hit for %r" % (scn,))
     if len(acc.samples) < 4:
         acc.sample({"part": "sched", "W": scn[0], "P": scn[1], "senders": scn[2], "recv_sizes": scn[3],
                     "schedules": res.executions, "wire_shapes(got,data_msgs,adjusts)": sorted(sigs)[:4]})
@@ -249,22 +257,24 @@ def main(tier):
         bound = 1
     else:
         cfgs = [(w, p) for w in (32768, 32769, 40000, 65536) for p in (4096, 4097, 32768, 4294967295)]
-        depth = 5
+        depth = 6           # on the 4 diagonal configurations; depth 5 on the other 12
         sc_cfgs = [(32768, 4096), (32769, 4097), (40000, 32768), (65536, 4294967295)]
         bound = 2
     items = []
+    diag = {(32768, 4096), (32769, 4097), (40000, 32768), (65536, 4294967295)}
     for cfg in cfgs:
         for e in chanflow.alphabet19(*cfg):
             if e[0] in ("dA", "dB"):
                 continue
-            items.append(("bfs", tier, cfg, depth, (e,)))
+            items.append(("bfs", tier, cfg, depth if (cfg in diag or tier == "quick") else depth - 1, (e,)))
     for (W, P) in sc_cfgs:
         T = W // 10
-        for senders in ([("send", W + 1), ("send_err", P)], [("send", P - 64), ("send", W)]):
+        Pe = min(P, W + 7)        # payload sizes stay bounded when the peer's max packet is 2^32-1
+        for senders in ([("send", W + 1), ("send_err", Pe)], [("send", Pe - 64), ("send", W)]):
             for reads in ((T + 1,), (1, W)):
                 items.append(("sched", tier, (W, P, tuple(senders), reads), bound))
         items.append(("sched", tier, (W, P, (("send", T + 2), ("send_err", T + 2)), ("2R", T + 2)), bound))
-        items.append(("sched", tier, (W, P, (("send", W + 1), ("send_err", P)), ("2R", 1000, W)), bound))
+        items.append(("sched", tier, (W, P, (("send", W + 1), ("send_err", Pe)), ("2R", 1000, W)), bound))
 
     def run(item, acc):
         if item[0] == "bfs":
@@ -273,6 +283,7 @@ def main(tier):
             sched_item(item[1:], acc)
     ck.extra["bfs_depth"] = depth
     ck.extra["delay_bound"] = bound
+    items.sort(key=lambda it: 0 if it[0] == "sched" else 1)      # long items first
     ck.merge(core.pmap(items, run))
     ck.exhaustive = False
     ck.caps.append("depth-bounded BFS; delay-bounded schedules")
